@@ -3157,7 +3157,7 @@ func (p *Posix) DeleteObject(ctx context.Context, input *s3.DeleteObjectInput) (
 					}, nil
 				}
 
-				srcObjVersion, err := ents[len(ents)-1].Info()
+				srcObjVersion, err := newestObjVersion(ents)
 				if err != nil {
 					return nil, fmt.Errorf("get file info: %w", err)
 				}
@@ -3300,6 +3300,30 @@ func (p *Posix) DeleteObject(ctx context.Context, input *s3.DeleteObjectInput) (
 	p.removeParents(bucket, object)
 
 	return &s3.DeleteObjectOutput{}, nil
+}
+
+// newestObjVersion returns the most recent of the stored versions of an
+// object (the entries of its versioning directory, in name order): version
+// ids sort by creation time, the null version has no such id and is placed
+// by its modification time, as in the version listing.
+func newestObjVersion(ents []fs.DirEntry) (fs.FileInfo, error) {
+	var newest, null fs.FileInfo
+	for _, e := range ents {
+		fi, err := e.Info()
+		if err != nil {
+			return nil, err
+		}
+		if e.Name() == nullVersionId {
+			null = fi
+			continue
+		}
+		// names are sorted: the last id is the newest
+		newest = fi
+	}
+	if newest == nil || (null != nil && null.ModTime().After(newest.ModTime())) {
+		return null, nil
+	}
+	return newest, nil
 }
 
 func (p *Posix) removeParents(bucket, object string) {
